@@ -138,12 +138,40 @@ def run_case(rs, ctx):
            "n_jobs": int(gen.pick(rs, [1, 1, 2])), "backend": gen.pick(rs, [None, "threading"])}
     if cfg["n_jobs"] == 1:
         cfg["backend"] = None
+    # arm changes between training calls (a third of the cases with two or more batches): the stored observations stay "all rows
+    # passed to fit and to every later partial_fit" - rows of a removed arm keep their place in the neighbourhood (k slots, UCB1's
+    # total count) and come back to life when the label is added again
+    arm_ops = len(chunks) > 1 and ctx.index % 3 == 1
+    if arm_ops and npd.get("probs") is not None:
+        npd["probs"] = probs = None  # no_nhood_prob_of_arm over a changing arm set is C08's subject (known finding K6)
+    spare = [a for a in gen.LABELS[labels] if a not in arms]
     m = gen.build(cfg)
     tol = 1e-6 if gen.is_linear(cfg) else 1e-12  # linear algebra on differently ordered neighbour rows (argpartition), far-away queries extrapolate
     rows_d, rows_r, rows_X = [], [], []
     first_len = 0
     wit = {"cfg": cfg, "chunks": chunks, "queries": Q}
     for ci, c in enumerate(chunks):
+        if arm_ops and ci > 0:
+            cur = list(m.arms)
+            what = int(rs.integers(4))
+            try:
+                if what in (0, 1) and len(cur) > 2:
+                    gone = cur[int(rs.integers(len(cur)))]
+                    m.remove_arm(gone)
+                    ctx.count("arms_removed_with_stored_rows")
+                    if what == 1:
+                        m.add_arm(gone)
+                        ctx.count("removed_label_added_again")
+                    else:
+                        spare.append(gone)
+                elif what == 2 and spare:
+                    m.add_arm(spare.pop(int(rs.integers(len(spare)))))
+                    ctx.count("arms_added_between_batches")
+            except Exception as ex:  # noqa: BLE001
+                ctx.violation("%s: arm change raised %s: %s" % (gen.cfg_sig(cfg), type(ex).__name__, str(ex)[:80]), wit)
+                return
+            cur = list(m.arms)
+            c["d"] = [d_ if d_ in cur else cur[k_ % len(cur)] for k_, d_ in enumerate(c["d"])]
         op = dict(c, op="fit" if ci == 0 else "partial_fit")
         try:
             gen.apply_op(m, op)
